@@ -9,7 +9,8 @@ POPEN = ("C09", "C10", "C11")
 
 PLAN = {
     # pid: (quick count, thorough count, generator kwargs cycle)
-    "C01": (260, 12000, [dict(), dict(), dict(big=True), dict(with_limits=True), dict(klass="echo"), dict(klass="flood"), dict(klass="close_stdin_early")]),
+    "C01": (280, 12000, [dict(), dict(), dict(big=True), dict(with_limits=True), dict(klass="echo"), dict(klass="flood"), dict(klass="close_stdin_early"),
+                         dict(with_time=True)]),
     "C02": (280, 12000, [dict(), dict(), dict(big=True), dict(klass="echo"), dict(klass="interleave"), dict(with_limits=True), dict(klass="utf8")]),
     "C03": (260, 12000, [dict(with_limits=True), dict(with_limits=True), dict(with_limits=True, klass="interleave"), dict(with_limits=True, with_time=True)]),
     "C04": (260, 12000, [dict(with_time=True), dict(with_time=True, klass="flood"), dict(with_time=True, klass="silent"), dict(with_time=True, klass="trickle"),
